@@ -1019,9 +1019,121 @@ fn check_multi_inner(mc: &MultiCase) -> Verdict {
     Verdict::Pass(info)
 }
 
+// ----------------------------------------------------------- short_writes ---
+
+/// A writer that accepts at most `max` bytes per call (what a pipe does to a writer that was interrupted).
+struct ShortWriter {
+    inner: Vec<u8>,
+    max: usize,
+    calls: usize,
+}
+
+impl std::io::Write for ShortWriter {
+    fn write(&mut self, buf: &[u8]) -> std::io::Result<usize> {
+        let n = buf.len().min(self.max);
+        self.inner.extend_from_slice(&buf[..n]);
+        self.calls += 1;
+        Ok(n)
+    }
+    fn flush(&mut self) -> std::io::Result<()> {
+        Ok(())
+    }
+}
+
+#[derive(Clone, Debug, Serialize, Deserialize)]
+pub struct ShortCase {
+    pub base: Case,
+    /// bytes accepted per write call
+    pub max: usize,
+}
+
+pub fn gen_short(t: &mut Tape) -> ShortCase {
+    let base = gen_case(t);
+    ShortCase { base, max: *t.pick(&[7usize, 1, 2, 3, 64, 4096]) }
+}
+
+fn print_in_process<W: std::io::Write>(case: &Case, wtr: W) -> Result<W, String> {
+    use grep_printer::{JSONBuilder, StandardBuilder};
+    use grep_searcher::SearcherBuilder;
+    let matcher = pat_cfg(case).build()?;
+    let mut sb = SearcherBuilder::new();
+    sb.line_number(case.line_number || case.mode == Mode::Json)
+        .multi_line(case.multiline)
+        .invert_match(case.invert)
+        .passthru(case.passthru)
+        .before_context(if case.passthru { 0 } else { case.before })
+        .after_context(if case.passthru { 0 } else { case.after });
+    if case.crlf {
+        sb.line_terminator(grep_matcher::LineTerminator::crlf());
+    }
+    let mut searcher = sb.build();
+    let input = &case.input.0;
+    if case.mode == Mode::Json {
+        let mut p = JSONBuilder::new().build(wtr);
+        searcher.search_slice(&matcher, input, p.sink_with_path(&matcher, "f")).map_err(|e| e.to_string())?;
+        Ok(p.into_inner())
+    } else {
+        let mut p = StandardBuilder::new()
+            .column(case.column)
+            .byte_offset(case.byte_offset)
+            .heading(case.heading)
+            .per_match(case.mode == Mode::Vimgrep)
+            .per_match_one_line(case.mode == Mode::Vimgrep)
+            .build_no_color(wtr);
+        if case.with_filename {
+            searcher.search_slice(&matcher, input, p.sink_with_path(&matcher, "f")).map_err(|e| e.to_string())?;
+        } else {
+            searcher.search_slice(&matcher, input, p.sink(&matcher)).map_err(|e| e.to_string())?;
+        }
+        Ok(p.into_inner().into_inner())
+    }
+}
+
+/// What the printers emit must not depend on how many bytes the writer underneath takes per call: the
+/// output through a writer that accepts `max` bytes at a time equals the output into a `Vec`.
+pub fn check_short(sc: &ShortCase) -> Verdict {
+    let case = &sc.base;
+    if sc.max == 0 {
+        return Verdict::Reject("a writer that accepts nothing");
+    }
+    let full = match print_in_process(case, Vec::new()) {
+        Ok(v) => v,
+        Err(_) => return Verdict::Reject("builder rejected the pattern or the search failed"),
+    };
+    let short = match print_in_process(case, ShortWriter { inner: vec![], max: sc.max, calls: 0 }) {
+        Ok(w) => w,
+        Err(e) => return Verdict::Fail(Fail::new(format!("printing through a writer that takes {} bytes per call failed ({e}) although printing into a Vec succeeded\n case: {}", sc.max, serde_json::to_string(case).unwrap_or_default()))),
+    };
+    // (the JSON end message carries the elapsed time)
+    let strip = |b: &[u8]| -> Vec<u8> {
+        static RE: std::sync::OnceLock<regex::bytes::Regex> = std::sync::OnceLock::new();
+        let re = RE.get_or_init(|| regex::bytes::Regex::new(r#""elapsed":\{[^}]*\}"#).unwrap());
+        re.replace_all(b, &b"\"elapsed\":{}"[..]).into_owned()
+    };
+    let (full, short_bytes) = if case.mode == Mode::Json { (strip(&full), strip(&short.inner)) } else { (full, short.inner.clone()) };
+    let short = ShortWriter { inner: short_bytes, max: short.max, calls: short.calls };
+    if short.inner != full {
+        let d = full.iter().zip(short.inner.iter()).position(|(a, b)| a != b).unwrap_or(full.len().min(short.inner.len()));
+        return Verdict::Fail(Fail::new(format!(
+            "the printed bytes depend on the writer: through a writer that accepts at most {} bytes per call the output has {} bytes, into a Vec {} bytes; first difference at byte {d}\n into a Vec: {:?}\n short writer: {:?}\n case: {}",
+            sc.max,
+            short.inner.len(),
+            full.len(),
+            Bs(full[d.saturating_sub(20)..full.len().min(d + 60)].to_vec()),
+            Bs(short.inner[d.saturating_sub(20).min(short.inner.len())..short.inner.len().min(d + 60)].to_vec()),
+            serde_json::to_string(case).unwrap_or_default()
+        )));
+    }
+    let mut info = Info::new(!full.is_empty());
+    info.class_if(case.mode == Mode::Json, "json");
+    info.class_if(short.calls > 3, "more_than_three_write_calls");
+    info.class_if(full.len() > sc.max, "output_longer_than_one_write");
+    Verdict::Pass(info)
+}
+
 pub fn run(pc: &PropCtx) {
     pc.rule(
-        "generated (pattern, input with invalid UTF-8 / multi-byte characters / very long lines / CRLF / missing final newline, flag set from -n -b --column --vimgrep -H/-I --heading --null -A -B --json -U --crlf -v -i, mmap on/off); the real binary's stdout is parsed by a grammar derived from the flags; every record's body must be byte-for-byte a line of the file, its line number / byte offset that line's own, its column 1 + the start of the first match (per-line regex oracle; all matches for --vimgrep), separators exactly between non-adjacent printed lines; JSON: decoded lines == file bytes at absolute_offset, submatch text == lines[start..end], submatches == the successive matches, text vs base64 chosen by UTF-8 validity (both directions), begin (match|context)* end in order. multi_file: the same flag sets with two files (the second a rotation of the first, empty, or without matches) given to one invocation: stdout must be the two single-file outputs joined by nothing, by one context separator (context flags, no heading) or by one empty line (--heading), JSON the first file's begin..end followed by the second's, exit status 0 iff one of them has 0. Non-trivial = at least one match and one context record and a non-ASCII input; distinct by hash",
+        "generated (pattern, input with invalid UTF-8 / multi-byte characters / very long lines / CRLF / missing final newline, flag set from -n -b --column --vimgrep -H/-I --heading --null -A -B --json -U --crlf -v -i, mmap on/off); the real binary's stdout is parsed by a grammar derived from the flags; every record's body must be byte-for-byte a line of the file, its line number / byte offset that line's own, its column 1 + the start of the first match (per-line regex oracle; all matches for --vimgrep), separators exactly between non-adjacent printed lines; JSON: decoded lines == file bytes at absolute_offset, submatch text == lines[start..end], submatches == the successive matches, text vs base64 chosen by UTF-8 validity (both directions), begin (match|context)* end in order. multi_file: the same flag sets with two files (the second a rotation of the first, empty, or without matches) given to one invocation: stdout must be the two single-file outputs joined by nothing, by one context separator (context flags, no heading) or by one empty line (--heading), JSON the first file's begin..end followed by the second's, exit status 0 iff one of them has 0. short_writes (in process): the Standard and JSON printers write the same generated searches through a writer that accepts 1 / 2 / 3 / 7 / 64 / 4096 bytes per call; the bytes must equal what they write into a Vec. Non-trivial = at least one match and one context record and a non-ASCII input; distinct by hash",
     );
     pc.assume("which lines are selected is C01/C03's subject; here the per-line oracle is only used for columns and submatches");
     pc.assume("under -U the column is asserted only for the first line of a block; the trailing-empty-match shape recorded as a known finding under C10 is skipped and counted");
@@ -1033,6 +1145,9 @@ pub fn run(pc: &PropCtx) {
     pc.require_class("records:json_with_invalid_utf8_input", cases as u64 / 100);
     let multi = pc.tier.pick(3_000, 40_000);
     pc.run_tape("multi_file", multi, (128, 1500), gen_multi, check_multi);
+    let short = pc.tier.pick(4_000, 60_000);
+    pc.run_tape("short_writes", short, (128, 1500), gen_short, check_short);
+    pc.require_class("short_writes:output_longer_than_one_write", short as u64 / 10);
     pc.require_class("multi_file:heading_blank_line_between_files", multi as u64 / 100);
     pc.require_class("multi_file:context_separator_between_files", multi as u64 / 50);
 }
@@ -1041,6 +1156,10 @@ pub fn replay(_pc: &PropCtx, sub: &str, case: &serde_json::Value) -> Result<Verd
     if sub == "multi_file" {
         let c: MultiCase = serde_json::from_value(case.clone()).map_err(|e| e.to_string())?;
         return Ok(check_multi(&c));
+    }
+    if sub == "short_writes" {
+        let c: ShortCase = serde_json::from_value(case.clone()).map_err(|e| e.to_string())?;
+        return Ok(check_short(&c));
     }
     let c: Case = serde_json::from_value(case.clone()).map_err(|e| e.to_string())?;
     Ok(check(&c))
